@@ -78,11 +78,19 @@ type csc struct {
 	refresh bool // created by a refresh (stack contains (*gcpBalancer).refresh)
 	slot    int
 	mu      sync.Mutex
-	addrs   int
+	addrs   string
 	conns   int
 }
 
-func (s *csc) UpdateAddresses(a []resolver.Address) { s.mu.Lock(); s.addrs = len(a); s.mu.Unlock() }
+func addrKey(a []resolver.Address) string {
+	k := ""
+	for _, x := range a {
+		k += x.Addr + ","
+	}
+	return k
+}
+
+func (s *csc) UpdateAddresses(a []resolver.Address) { s.mu.Lock(); s.addrs = addrKey(a); s.mu.Unlock() }
 func (s *csc) Connect()                             { s.mu.Lock(); s.conns++; s.mu.Unlock() }
 func (s *csc) GetOrBuildProducer(balancer.ProducerBuilder) (balancer.Producer, func()) {
 	return nil, func() {}
@@ -147,7 +155,7 @@ func inRefresh() bool {
 func (c *ccc) NewSubConn(a []resolver.Address, o balancer.NewSubConnOptions) (balancer.SubConn, error) {
 	isRefresh := inRefresh()
 	c.mu.Lock()
-	sc := &csc{id: len(c.all), refresh: isRefresh, addrs: len(a)}
+	sc := &csc{id: len(c.all), refresh: isRefresh, addrs: addrKey(a)}
 	c.all = append(c.all, sc)
 	if isRefresh {
 		c.refreshes++
@@ -290,6 +298,7 @@ func RunPool(p *PoolProg) (violation string, st Stats) {
 	addrB := []resolver.Address{{Addr: "B"}, {Addr: "B2"}}
 	b.UpdateClientConnState(balancer.ClientConnState{ResolverState: resolver.State{Addresses: addrA}, BalancerConfig: cfg})
 
+	lastAddrs := addrKey(addrA)
 	var inCallback, overlap atomic.Int64
 	stop := make(chan struct{})
 	var cbDone sync.WaitGroup
@@ -353,6 +362,7 @@ func RunPool(p *PoolProg) (violation string, st Stats) {
 				if r>>16%2 == 0 {
 					a = addrB
 				}
+				lastAddrs = addrKey(a)
 				b.UpdateClientConnState(balancer.ClientConnState{ResolverState: resolver.State{Addresses: a}})
 				inCallback.Store(0)
 			case r%16 == 2:
@@ -479,6 +489,30 @@ func RunPool(p *PoolProg) (violation string, st Stats) {
 		return v.(string), st
 	}
 	pertLevel.Store(0)
+	// C20: once everything is quiescent every connection that belongs to the pool uses the latest resolved list
+	for {
+		select {
+		case sc := <-cc.newConns:
+			report(sc, connectivity.Connecting)
+			report(sc, connectivity.Ready)
+			continue
+		default:
+		}
+		break
+	}
+	cc.mu.Lock()
+	for _, sc := range cc.all {
+		sc.mu.Lock()
+		a := sc.addrs
+		sc.mu.Unlock()
+		if cc.removed[sc] == 0 && a != lastAddrs {
+			cc.violate("C20", "after the workload, connection %d (replacement=%v) of the pool has address list %q, the latest resolved list is %q", sc.id, sc.refresh, a, lastAddrs)
+		}
+	}
+	cc.mu.Unlock()
+	if v := cc.violation.Load(); v != nil {
+		return v.(string), st
+	}
 	// quiescent drain (C02): every completion has run; n picks on the final picker land on n distinct channels
 	for {
 		select {
